@@ -48,9 +48,9 @@ CHECKS["C06"] = dict(level="exploration", ref="6/C06",
    note="Standard-conformance of the ciphertext is C07 (not decided); single track / single trun per fragment as the API documents; reference demuxer vsim/ref trusted; box order is not demanded (multiset).",
    technique="deterministic simulation: producer -> encryptor -> origin -> player with seeded unit transport (separate init, order, repeats) and delivery; conservation vs clear sample log and box inventory")
 CHECKS["C20"] = dict(level="exploration", ref="6/C20",
-   text="Seeded search over interleavings of 2-6 caller goroutines with scripted work on their own objects derived from shared read-only inputs. Built with -race; goroutines are serialised by a baton invisible to the race detector, so each seed is one exactly replayable schedule while the detector still reports every conflicting access pair between tasks; plus output==solo-output, shared-input hash and registry fingerprint oracles; a free-running mode at GOMAXPROCS 1/4/16 cross-checks.",
+   text="Seeded search over interleavings of 2-6 caller goroutines with scripted work on their own objects derived from shared read-only inputs. Built with -race; goroutines are serialised by a baton invisible to the race detector, so each seed is one exactly replayable schedule while the detector still reports every conflicting access pair between tasks; scheduling points are step boundaries and every Read/Seek/Write a task makes on its own device handle (so tasks interleave inside library calls), some writes are refused, pooled objects are isolated per run; plus output==solo-output, shared-input hash and registry fingerprint oracles; a free-running mode at GOMAXPROCS 1/4/16 cross-checks.",
    note="Trusts the Go race detector (assembly routines such as AES/XOR kernels are not instrumented: writes through them are caught by the input-hash oracle instead); registry-modifying calls excluded by the statement; one open known finding (slice-path aliasing + in-place crypto).",
-   technique="deterministic simulation: tape-drawn serialised goroutine schedules under the race detector (race-invisible baton) + non-interference oracles")
+   technique="deterministic simulation: tape-drawn serialised goroutine schedules (step and I/O-point granularity) under the race detector (race-invisible baton) + non-interference oracles")
 CHECKS["C10"] = dict(level="exploration", ref="6/C10",
    text="The tool's inner function cropMP4 runs inside an in-package harness with both of its seams simulated: lazy input on a SimDisk (delivery schedules, EIO, seek errors, truncation) and a faulty output sink; inputs are corpus files, layout variants and raw-muxer files; whenever it returns nil the output is compared, by an independent demuxer, with the prefix the statement defines (exact integer arithmetic).",
    note="Conditional on success (errors and panics impose nothing); no claim when no sync sample starts at or after the requested duration; run()/flags/os files are real and un-faulted (one smoke run); raw muxer and reference demuxer are ours, written from ISO/IEC 14496-12.",
